@@ -1,0 +1,103 @@
+//go:build verif
+
+package proxy
+
+// Export hooks for the verification harness (properties C24, C25). Add-only, no logic:
+// thin constructors that wire the unexported session handlers over connections and an
+// event manager supplied by the caller, the same way the package's own tests do.
+
+import (
+	"net"
+
+	"github.com/go-logr/logr"
+	"github.com/robinbraemer/event"
+
+	"go.minekube.com/gate/pkg/edition/java/netmc"
+	"go.minekube.com/gate/pkg/edition/java/proxy/bungeecord"
+	"go.minekube.com/gate/pkg/edition/java/proxy/message"
+	"go.minekube.com/gate/pkg/edition/java/proxy/phase"
+	"go.minekube.com/gate/pkg/util/sets"
+)
+
+// VerifC25Env is one player (over the caller's client connection) inside a Proxy value that
+// only carries the caller's event manager and channel registrar.
+type VerifC25Env struct {
+	player *connectedPlayer
+}
+
+// VerifC25Server is one serverConnection of that player.
+type VerifC25Server struct {
+	sc *serverConnection
+}
+
+func VerifC25NewEnv(client netmc.MinecraftConn, mgr event.Manager, reg *message.ChannelRegistrar,
+	clientPhase phase.ClientConnectionPhase) *VerifC25Env {
+	player := &connectedPlayer{
+		MinecraftConn:      client,
+		log:                logr.Discard(),
+		clientsideChannels: sets.NewCappedSet[string](maxClientsidePluginChannels),
+		connPhase:          clientPhase,
+	}
+	player.chatQueue = newChatQueue(player)
+	player.sessionHandlerDeps = &sessionHandlerDeps{
+		proxy:    &Proxy{event: mgr, channelRegistrar: reg},
+		eventMgr: mgr,
+	}
+	return &VerifC25Env{player: player}
+}
+
+// NewServer makes a server connection of the player; backend may be nil (not connected).
+func (e *VerifC25Env) NewServer(name string, backend netmc.MinecraftConn, ph phase.BackendConnectionPhase) *VerifC25Server {
+	server := newRegisteredServer(NewServerInfo(name, &net.TCPAddr{IP: net.IPv4(127, 0, 0, 1), Port: 25565}))
+	sc := newServerConnection(server, nil, e.player)
+	sc.connection = backend
+	sc.connPhase = ph
+	return &VerifC25Server{sc: sc}
+}
+
+func (e *VerifC25Env) SetConnectedServer(s *VerifC25Server) {
+	e.player.mu.Lock()
+	defer e.player.mu.Unlock()
+	if s == nil {
+		e.player.connectedServer_ = nil
+		return
+	}
+	e.player.connectedServer_ = s.sc
+}
+
+func (e *VerifC25Env) SetInFlight(s *VerifC25Server) {
+	e.player.mu.Lock()
+	defer e.player.mu.Unlock()
+	if s == nil {
+		e.player.connInFlight = nil
+		return
+	}
+	e.player.connInFlight = s.sc
+}
+
+func (e *VerifC25Env) SetClientPhase(ph phase.ClientConnectionPhase) { e.player.SetPhase(ph) }
+
+func (e *VerifC25Env) AddClientsideChannels(ch ...string) { e.player.clientsideChannels.Add(ch...) }
+
+func (e *VerifC25Env) ClientsideChannelCount() int { return e.player.clientsideChannels.Len() }
+
+func (e *VerifC25Env) ClientPlayHandler() netmc.SessionHandler {
+	return &clientPlaySessionHandler{player: e.player, log: logr.Discard(), log1: logr.Discard()}
+}
+
+func (e *VerifC25Env) ClientConfigHandler() netmc.SessionHandler {
+	return newClientConfigSessionHandler(e.player)
+}
+
+func (s *VerifC25Server) BackendConfigHandler() netmc.SessionHandler {
+	h, _ := newBackendConfigSessionHandler(s.sc, nil)
+	return h
+}
+
+func (s *VerifC25Server) BackendPlayHandler() netmc.SessionHandler {
+	return &backendPlaySessionHandler{
+		serverConn:                 s.sc,
+		bungeeCordMessageResponder: bungeecord.NopMessageResponder,
+		log:                        logr.Discard(),
+	}
+}
